@@ -166,13 +166,128 @@ def signatures(fn) -> Optional[Dict[str, Tuple[str, ...]]]:
     return {v: tuple(sorted(s)) for v, s in sigs.items() if s}
 
 
+def skeleton(fn) -> List[str]:
+    """Statement skeleton of a function (own scope, pre-order): statement kinds with the names of the functions they call.  Invariant under renaming
+    of variables and rewriting of operands; changes when statements are added, removed, moved, split or merged."""
+    out: List[str] = []
+
+    def calls(e) -> str:
+        names = []
+        for n in ast.walk(e):
+            if isinstance(n, ast.Call):
+                names.append(n.func.attr if isinstance(n.func, ast.Attribute) else (n.func.id if isinstance(n.func, ast.Name) else "?"))
+        return ",".join(names)
+
+    def rec(body):
+        for st in body:
+            k = type(st).__name__
+            if isinstance(st, _FUNC + (ast.ClassDef,)):
+                out.append(f"def:{st.name}")
+                continue
+            if isinstance(st, (ast.Assign, ast.AnnAssign, ast.AugAssign, ast.Return, ast.Expr, ast.Raise, ast.Assert, ast.Delete)):
+                out.append(f"{k}:{calls(st)}")
+            elif isinstance(st, (ast.If, ast.While)):
+                out.append(f"{k}:{calls(st.test)}")
+                rec(st.body)
+                if st.orelse:
+                    out.append("else")
+                    rec(st.orelse)
+            elif isinstance(st, (ast.For, ast.AsyncFor)):
+                out.append(f"{k}:{calls(st.iter)}")
+                rec(st.body)
+                if st.orelse:
+                    out.append("else")
+                    rec(st.orelse)
+            elif isinstance(st, (ast.With, ast.AsyncWith)):
+                out.append(f"{k}:{','.join(calls(i.context_expr) for i in st.items)}")
+                rec(st.body)
+            elif isinstance(st, ast.Try):
+                out.append("Try")
+                rec(st.body)
+                for h in st.handlers:
+                    out.append("except")
+                    rec(h.body)
+                if st.orelse:
+                    out.append("else")
+                    rec(st.orelse)
+                if st.finalbody:
+                    out.append("finally")
+                    rec(st.finalbody)
+            else:
+                out.append(k)
+    rec(fn.body)
+    return out
+
+
+def skeleton_drift(cur: List[str], ref: List[str]) -> int:
+    import difflib
+    sm = difflib.SequenceMatcher(a=ref, b=cur, autojunk=False)
+    d = 0
+    for tag, i1, i2, j1, j2 in sm.get_opcodes():
+        if tag != "equal":
+            d += max(i2 - i1, j2 - j1)
+    return d
+
+
+def text_skeleton(fn) -> List[str]:
+    """Like skeleton(), with each simple statement / each compound statement's header spelled out (digest of its normalised text)."""
+    import hashlib
+    out: List[str] = []
+
+    def h(x) -> str:
+        return hashlib.sha1(ast.unparse(x).encode()).hexdigest()[:10]
+
+    def rec(body):
+        for st in body:
+            if isinstance(st, _FUNC + (ast.ClassDef,)):
+                out.append(f"def:{st.name}")
+            elif isinstance(st, (ast.If, ast.While)):
+                out.append(f"{type(st).__name__}:{h(st.test)}")
+                rec(st.body)
+                if st.orelse:
+                    out.append("else")
+                    rec(st.orelse)
+            elif isinstance(st, (ast.For, ast.AsyncFor)):
+                out.append(f"For:{h(st.target)}:{h(st.iter)}")
+                rec(st.body)
+                if st.orelse:
+                    out.append("else")
+                    rec(st.orelse)
+            elif isinstance(st, (ast.With, ast.AsyncWith)):
+                out.append("With:" + ",".join(h(i.context_expr) for i in st.items))
+                rec(st.body)
+            elif isinstance(st, ast.Try):
+                out.append("Try")
+                rec(st.body)
+                for hd in st.handlers:
+                    out.append("except:" + (h(hd.type) if hd.type is not None else ""))
+                    rec(hd.body)
+                if st.orelse:
+                    out.append("else")
+                    rec(st.orelse)
+                if st.finalbody:
+                    out.append("finally")
+                    rec(st.finalbody)
+            else:
+                out.append(h(st))
+    rec(fn.body)
+    return out
+
+
+def skeleton_deletion_only(cur: List[str], ref: List[str]) -> bool:
+    """True when `cur` is `ref` with some statements removed and nothing added, moved or rewritten."""
+    import difflib
+    sm = difflib.SequenceMatcher(a=ref, b=cur, autojunk=False)
+    return all(tag in ("equal", "delete") for tag, *_ in sm.get_opcodes())
+
+
 def reference_table(src_dir: Path) -> dict:
     table = {}
     for p in sorted(src_dir.glob("*.py")):
         tree = ast.parse(p.read_text())
         for qn, fn in functions(tree):
             sg = signatures(fn)
-            entry = {"params": _params(fn)}
+            entry = {"params": _params(fn), "skeleton": skeleton(fn)}
             if sg is not None:
                 entry["locals"] = [[v, list(s)] for v, s in sg.items()]
             table[f"{p.stem}:{qn}"] = entry
